@@ -1069,6 +1069,12 @@ def run(tier, seed):
         "the setup-script environment (applied last; C18) is a side condition of C15_env_fixed",
         "Path::parent / join are modelled for normalised paths (the generator only produces such paths)",
     ]
+    # end-to-end stage: the packaged `cargo nextest run` path over the scripted puppet workspace
+    try:
+        import e2e_general
+        e2e_general.stage(chk, PROP, tier, seed, n_quick=8)
+    except RuntimeError as ex:
+        chk.violation("broken-obligation", "e2e-build", dict(error=str(ex)[-3000:]), no_input=True)
     return chk.finish(
         gate, checker,
         ["Coq 8.16.1 kernel + vm_compute",
